@@ -54,6 +54,8 @@ class StatusFn:
             return 200
         if self.kind == 'any-error-400':
             return 400 if any(codes) else 200
+        if self.kind == 'all-errors-400':
+            return 400 if all(codes) else 200      # NOT 200 for an empty tuple: the function has no say over an empty reply
         return STATUS_TABLE.get(codes[0], 200 if codes[0] == 0 else 418) if codes else 200
 
 
@@ -62,6 +64,8 @@ def want_status(kind, codes):
         return 200
     if kind == 'any-error-400':
         return 400 if any(codes) else 200
+    if kind == 'all-errors-400':
+        return 400 if all(codes) else 200
     return STATUS_TABLE.get(codes[0], 200 if codes[0] == 0 else 418) if codes else 200
 
 
@@ -364,7 +368,7 @@ def gen(ctx):
             yield 'post', dict(root=('/rpc', '/api')[k % 2], status_kind=('default', 'table')[k % 2],
                                path_key=('root', 'added', 'added-sub')[k % 3], media_type=mt, body_hex=b.hex(), family='declared-charset')
     for root in ('/rpc', '/api', '/api/v1/'):
-        for status_kind in ('default', 'any-error-400', 'table'):
+        for status_kind in ('default', 'any-error-400', 'table', 'all-errors-400'):
             for fam, b in bs:
                 for mt in MEDIA:
                     k += 1
